@@ -39,6 +39,11 @@ class Dummy:
         await asyncio.sleep(0)
         raise RuntimeError("boom")
 
+    @staticmethod
+    def clamp(value: int, low: int = 0) -> int:
+        """Clamps a value from below."""
+        return max(value, low)
+
     def _private(self) -> None:
         pass
 
